@@ -4248,4 +4248,34 @@ theorem all_parities_spec (k n t : ℤ) : (k ≥ 0 ∧ n ≥ 0 ∧ t = clen (com
 
 end DenseParities
 
+
+/-! # Seventeenth batch: edge events -/
+
+section Edges
+
+-- e-th edge of the edge view of graph g: first / second endpoint; ARBITRARY functions
+variable (gedge1 gedge2 : ℤ → ℤ → ℤ)
+
+/-- one event per edge of the first `t` edges -/
+def dedges (tid g t : ℤ) : CSeq :=
+  (List.range t.toNat).map (fun (i : ℕ) => ev3 tid (gedge1 g (i : ℤ)) (gedge2 g (i : ℤ)))
+
+/-- `t == 0 -> dedges(tid, g, t) == cnil` -/
+theorem dedges_zero (tid g t : ℤ) : t = 0 → dedges gedge1 gedge2 tid g t = cnil := by
+  rintro rfl; rfl
+
+/-- `t >= 0 -> dedges(tid, g, t + 1) == csnoc(dedges(tid, g, t), ev3(tid, gedge1(g, t), gedge2(g, t)))` -/
+theorem dedges_succ (tid g t : ℤ) : t ≥ 0 →
+    dedges gedge1 gedge2 tid g (t + 1) =
+      csnoc (dedges gedge1 gedge2 tid g t) (ev3 tid (gedge1 g t) (gedge2 g t)) := by
+  intro h
+  have h1 : (t + 1).toNat = t.toNat + 1 := by omega
+  have h2 : ((t.toNat : ℕ) : ℤ) = t := by omega
+  unfold dedges csnoc
+  rw [h1, List.range_succ, List.map_append, List.map_singleton, h2]
+
+end Edges
+
+/-! uninterpreted in specs.py, NO schema emitted: `evnest` (and `gedge1`, `gedge2` are arbitrary functions). -/
+
 end CnfSem
